@@ -142,6 +142,34 @@ def survivor_oracle(ops, lines, known=None):
                 if s[0] == op[1]: s[2] = True
     return None
 
+F27_TEXT = ("an ls-subscription survives its unsubscribe_ls / the end of its session when a second subscribe_ls was accepted under the same "
+            "transaction id while it was active (Worterbuch.ls_subscriptions keeps one parent per id, worterbuch.rs:659)")
+
+def ls_survivor_oracle(ops, lines, known=None):
+    """no child list reaches an ls-subscription after it was unsubscribed or its client's session ended"""
+    from eventspec import ls_of
+    subs = {}    # inst -> [client, tid, ended, orphan]
+    for i, (op, l) in enumerate(zip(ops, lines)):
+        r = res_of(l)
+        if op[0] == "subls" and r.startswith("sub "):
+            for s in subs.values():
+                if not s[2] and (s[0], s[1]) == (op[1], op[2]): s[3] = True
+            subs[int(r.split(" ")[1])] = [op[1], op[2], False, False]
+            continue
+        if op[0] == "unsubls" and not r.startswith("err"):
+            for s in subs.values():
+                if (s[0], s[1]) == (op[1], op[2]) and not s[3]: s[2] = True
+        dead = [inst for inst in ls_of(l) if inst in subs and subs[inst][2] and op[0] != "disc"]
+        if dead:
+            if all(subs[inst][3] for inst in dead):
+                if known: known("F27", F27_TEXT)
+            else:
+                return (i, f"child list delivered to ls-subscription {dead[0]} of client {subs[dead[0]][0]} after it ended")
+        if op[0] == "disc":
+            for s in subs.values():
+                if s[0] == op[1]: s[2] = True
+    return None
+
 def probe_oracle(ops, lines):
     """after disc c the probes must answer NotSubscribed / NotSubscribed / NoPubStream"""
     gone = set()
@@ -158,6 +186,7 @@ def probe_oracle(ops, lines):
     return None
 
 CORPUS = [
+    ("F27-dup-ls-tid", [("conn", 1), ("conn", 2), ("dump",), ("subls", 1, 1, "a"), ("subls", 1, 1, "b"), ("disc", 1), ("dump",), ("set", 2, "a/x", 1), ("set", 2, "b/y", 1)]),
     ("F24-dup-tid", [("conn", 1), ("conn", 2), ("dump",), ("sub", 1, 6, "x", False, True), ("sub", 1, 6, "y", False, True), ("set", 2, "x", 1), ("disc", 1), ("dump",), ("set", 2, "y", 2), ("set", 2, "x", 2)]),
     ("basic", [("conn", 1), ("conn", 2), ("dump",), ("set", 1, gg_key(1), ["g/#", "h/?"]), ("set", 1, lw_key(1), [{"key": "w/1", "value": "bye"}, ["w/2", 2]]),
                ("set", 2, "g/1", 1), ("set", 2, "g/2/3", 1), ("set", 2, "h/x", 1), ("set", 2, "h/x/y", 1), ("cset", 2, "w/1", 0, 0), ("psub", 2, 1, "#", False, True), ("sub", 2, 2, "w/1", True, True),
@@ -202,6 +231,7 @@ def random_case(g, n):
             ops.append(("psub", c, t, g.pattern(), r.random() < 0.3, True))
         elif x < 0.64:
             t = tids.get(c, 0) + 1; tids[c] = t
+            if r.random() < 0.1 and t > 1: t -= 1                      # a transaction id that may still be ls-subscribed (F27)
             ops.append(("subls", c, t, r.choice([None, g.key()])))
         elif x < 0.68: ops.append(("spubinit", c, 7, g.key()))
         elif x < 0.74: ops.append((r.choice(["lock", "acq"]), c, r.choice(["k", "k/j"])))
@@ -242,7 +272,7 @@ def run(v, tier, seed):
     nontrivial, samples, ndisc = set(), [], 0
     for name, ops in cases:
         lines = A.get(name, [])
-        bad = session_oracle(ops, lines, known=v.known) or probe_oracle(ops, lines) or survivor_oracle(ops, lines, known=v.known)
+        bad = session_oracle(ops, lines, known=v.known) or probe_oracle(ops, lines) or survivor_oracle(ops, lines, known=v.known) or ls_survivor_oracle(ops, lines, known=v.known)
         d = sum(1 for o, l in zip(ops, lines) if o[0] == "disc" and events_of(l))
         ndisc += sum(1 for o in ops if o[0] == "disc")
         if d: nontrivial.add(tuple(map(str, ops)))
@@ -253,7 +283,7 @@ def run(v, tier, seed):
                 write_cases(wc, [("s", [render(o) for o in cand])])
                 i2, _ = run_engine("core", "core_driver", wc, work, tag="-shrink")
                 l2 = read_obs(i2)["s"]
-                return (session_oracle(cand, l2) or probe_oracle(cand, l2) or survivor_oracle(cand, l2)) is not None
+                return (session_oracle(cand, l2) or probe_oracle(cand, l2) or survivor_oracle(cand, l2) or ls_survivor_oracle(cand, l2)) is not None
             small = shrink(ops[:step + 2], fails)
             v.violation({"what": msg, "case": name, "ops": [render(o) for o in small], "ops_readable": [str(o) for o in small]})
             if len(v.violations) >= 3: break
